@@ -11,7 +11,7 @@ import time
 
 
 class Scheduler:
-    def __init__(self, first, p1, p2, patience=0.15, deadline=30.0):
+    def __init__(self, first, p1, p2, patience=0.4, deadline=30.0):
         self.cv = threading.Condition()
         self.A, self.B = first, 3 - first
         self.p = {self.A: p1, self.B: p2}
